@@ -75,35 +75,143 @@ ImplAsArray(C, dt, fill) ==
 \* array or bytes) and fill unset encoding parameters, which are not content of the column; compress() wraps the
 \* same arrays (or converted copies) into new BinaryCIFData objects
 ImplOp(C, op) == IF op[1] = "as_array" THEN ImplAsArray(C, op[2], op[3]) ELSE Acc(C, FALSE, FALSE)
-\* the column after a history of accesses
-After(C, hist) == FoldLeft(LAMBDA c, op : ImplOp(c, op).col, C, hist)
-\* situations a history runs through (properties of the case in the model, whatever the code does):
+(* ------------------------------------------------------------------ the owner WRITES between serialisations
+   A column is an object with a life: the data array and the mask array it holds can be changed in place by their
+   owner (column.data.array[i] = y; coord += shift on the buffer the column was built from), and the column of a
+   category can be re-assigned (category[name] = BinaryCIFColumn(...)).  The property speaks about every
+   serialisation: serialize() / write() / compress() at any moment of this life store the content the column has
+   AT THAT MOMENT - not the content it had when it was built, first serialised or last looked at.
+
+   Write operations (WriteOps, same shape as the read accesses <<name, "none", all>>):
+     <<"set_data", "none", all>>   in-place update of the data array through column.data.array: the last row
+                                   (all = FALSE:  a[-1] = Bump(a[-1])) or every row (all = TRUE:  a[:] = Bump(a))
+     <<"set_mask", "none", all>>   the same on the mask array with MaskBump (nothing when the column has no mask)
+     <<"assign", "none", FALSE>>   the column is replaced by a NEW column object built from Bump of every data row
+                                   and MaskBump of every mask row
+   Bump(t, x) is a value of the same dtype that differs from x and needs no arithmetic that could round
+   (integers: the neighbour inside the type; floats: the negative, 0 -> 1; strings: first character replaced,
+   "" -> "c": never longer than one character or than the string it replaces, so it fits the fixed-width array).
+
+   Code shape.  BinaryCIFData keeps the array object (np.asarray), serialize() runs encode_stepwise over it each
+   time, so every serialisation sees the current rows.  One piece of state does survive a serialisation:
+   encodings fill their unset parameters in place at the first encode, and for the default StringArrayEncoding
+   that is the table of strings (`tbl`).  A later serialisation of the same object whose data hold a string outside
+   this table is REFUSED (check_present; ValueError / IndexError / SerializationError), which the property
+   allows ("rejected or kept losslessly, never silently altered").  compress() builds new BinaryCIFData objects
+   with new encodings: it never refuses and fills nothing.  A column read from a file carries the table of the
+   file. *)
+WriteOps == {<<op, "none", all>> : op \in {"set_data", "set_mask"}, all \in BOOLEAN} \cup {<<"assign", "none", FALSE>>}
+Ops == ReadOps \cup WriteOps
+SerOps == {"serialize", "write", "compress"}
+
+Bump(t, x) ==
+  IF t \in IntTypes THEN (IF x >= THi(t) THEN x - 1 ELSE x + 1)
+  ELSE IF t \in FloatTypes
+  THEN (CASE x.k = "fin" -> (IF x.fx = 0 THEN Fin(Scale) ELSE [x EXCEPT !.fx = -x.fx])
+          [] x.k = "whole" -> [x EXCEPT !.fx = -x.fx]
+          [] x.k = "pinf" -> NInf
+          [] x.k = "ninf" -> PInf
+          [] OTHER -> Fin(0))
+  ELSE (IF x = <<>> THEN <<"c">> ELSE IF x[1] = "c" THEN <<"a">> \o Tail(x) ELSE <<"c">> \o Tail(x))
+MaskBump(m) == (m + 1) % 3
+Rows(all, n) == IF all THEN 1..n ELSE {n}
+BumpData(C, all) == [C EXCEPT !.d.v = [i \in DOMAIN @ |-> IF i \in Rows(all, Len(@)) THEN Bump(C.d.t, @[i]) ELSE @[i]]]
+BumpMask(C, all) ==
+  IF C.m = None THEN C
+  ELSE [C EXCEPT !.m = Some([i \in DOMAIN C.m[1] |-> IF i \in Rows(all, Len(C.m[1])) THEN MaskBump(C.m[1][i]) ELSE C.m[1][i]])]
+\* the content after a write operation
+ApplyWrite(C, op) ==
+  CASE op[1] = "set_data" -> BumpData(C, op[3])
+    [] op[1] = "set_mask" -> BumpMask(C, op[3])
+    [] op[1] = "assign" -> BumpMask(BumpData(C, TRUE), TRUE)
+
+\* the table of strings a first serialisation fills in (None: not filled / not a string column)
+TableOf(C) == IF C.d.t = StrT THEN Some(ToSet(C.d.v)) ELSE None
+Refuses(C, tbl) == C.d.t = StrT /\ tbl # None /\ \E i \in DOMAIN C.d.v : C.d.v[i] \notin tbl[1]
+\* what one serialisation gives back when it is read again: [oc, c]; "none" for operations that serialise nothing
+Out(oc, C) == [oc |-> oc, c |-> C]
+
+(* One step of the life of a column object.  acc = [c: content, tbl: string table of its encoding, ser: it was
+   serialised before, outs: one Out per operation so far, s: situations]. *)
+Step(acc, op) ==
+  LET C == acc.c IN
+  IF op[1] \in {"as_array", "as_item"}
+  THEN LET r == ImplOp(C, op) IN
+       [acc EXCEPT !.c = r.col, !.outs = Append(@, Out("none", r.col)),
+                   !.s = @ \cup (IF r.wrote /\ r.samedt THEN {"PlaceholderIntoStoredDtype"} ELSE {})
+                           \cup (IF r.wrote /\ ~r.samedt THEN {"PlaceholderIntoOtherDtype"} ELSE {})
+                           \cup (IF ~r.wrote /\ Masked(C) # {} THEN {"AccessWithoutWrite"} ELSE {})]
+  ELSE IF op[1] = "compress"
+  THEN [acc EXCEPT !.outs = Append(@, Out("ok", C)),
+                   !.s = @ \cup (IF Masked(C) # {} THEN {"AccessWithoutWrite"} ELSE {})]
+  ELSE IF op[1] \in {"serialize", "write"}
+  THEN IF Refuses(C, acc.tbl)
+       THEN [acc EXCEPT !.outs = Append(@, Out("Rejected", C)), !.s = @ \cup {"RefusedStringOutsideTable"}]
+       ELSE [acc EXCEPT !.outs = Append(@, Out("ok", C)), !.ser = TRUE,
+                        !.tbl = IF @ = None THEN TableOf(C) ELSE @,
+                        !.s = @ \cup (IF Masked(C) # {} THEN {"AccessWithoutWrite"} ELSE {})
+                                \cup acc.dirty,
+                        !.dirty = {}]
+  ELSE LET C2 == ApplyWrite(C, op) IN
+       [acc EXCEPT !.c = C2, !.outs = Append(@, Out("none", C2)),
+                   !.tbl = IF op[1] = "assign" THEN None ELSE @,
+                   !.dirty = @ \cup (IF acc.ser /\ C2 # C
+                                     THEN {CASE op[1] = "set_data" -> "DataWrittenBetweenSerialisations"
+                                             [] op[1] = "set_mask" -> "MaskWrittenBetweenSerialisations"
+                                             [] OTHER -> "ReassignedBetweenSerialisations"}
+                                     ELSE {})]
+Life(C, tbl, hist) == FoldLeft(Step, [c |-> C, tbl |-> tbl, ser |-> FALSE, outs |-> <<>>, s |-> {}, dirty |-> {}], hist)
+\* ... followed by the write of the file that holds the column
+Final(C, tbl, hist) == Step(Life(C, tbl, hist), <<"write", "none", FALSE>>)
+
+\* the column after a history of operations
+After(C, hist) == Life(C, None, hist).c
+\* the declarative content: the write operations applied to what was built; read accesses are invisible
+Written(C, hist) == FoldLeft(LAMBDA c, op : IF op \in WriteOps THEN ApplyWrite(c, op) ELSE c, C, hist)
+\* situations a history (with the final write) runs through (properties of the case in the model, whatever the
+\* code does):
 \*   PlaceholderIntoStoredDtype  placeholders were written into an array of exactly the stored dtype
 \*   PlaceholderIntoOtherDtype   ... of another dtype
 \*   AccessWithoutWrite          an access of a masked column that writes nothing
-HistSituations(C, hist) ==
-  LET step(acc, op) == LET r == ImplOp(acc.c, op) IN
-        [c |-> r.col,
-         s |-> acc.s \cup (IF r.wrote /\ r.samedt THEN {"PlaceholderIntoStoredDtype"} ELSE {})
-                     \cup (IF r.wrote /\ ~r.samedt THEN {"PlaceholderIntoOtherDtype"} ELSE {})
-                     \cup (IF ~r.wrote /\ Masked(acc.c) # {} THEN {"AccessWithoutWrite"} ELSE {})]
-  IN FoldLeft(step, [c |-> C, s |-> {}], hist).s
+\*   DataWrittenBetweenSerialisations, MaskWritten..., Reassigned...: the column was serialised, its content
+\*                               was then changed, and it was serialised again
+\*   RefusedStringOutsideTable   a serialisation is refused because of the string table filled by an earlier one
+HistSituations(C, hist) == Life(C, None, hist).s \cup (Final(C, None, hist).s \ {"AccessWithoutWrite"})
 
 (* ------------------------------------------------------------------ domain *)
 Dom_Col(C) == /\ C.d.v # <<>> /\ C.d.t \in IntTypes \cup FloatTypes \cup {StrT} /\ Dom_Array(C.d)
               /\ C.m # None => (Len(C.m[1]) = Len(C.d.v) /\ \A i \in DOMAIN C.m[1] : C.m[1][i] \in {Present, Inapplicable, Missing})
-Dom_Hist(hist) == \A i \in DOMAIN hist : hist[i] \in ReadOps
+Dom_Hist(hist) == \A i \in DOMAIN hist : hist[i] \in Ops
 
 (* ------------------------------------------------------------------ files: columns with histories *)
 \* a recorded column <<name, A, M>> (M = <<>> or <<mask array>>) as a Col, and back
 ColOf(c) == Col(c.A, IF c.M = <<>> THEN None ELSE Some(c.M[1].v))
-\* accesses of a file: <<j, op>> - op on column j
+\* operations on a file: <<j, op>> - op on column j
 OpsOn(hist, j) == LET s == SelectSeq(hist, LAMBDA h : h[1] = j) IN [k \in DOMAIN s |-> s[k][2]]
 ColsAfter(cin, hist) == [j \in DOMAIN cin |-> After(ColOf(cin[j]), OpsOn(hist, j))]
-\* the columns that came back are the expected ones (types first: TLC cannot compare values of different kinds)
+\* one column that came back is the expected one (types first: TLC cannot compare values of different kinds)
+SameCol(c, want) == /\ c.d.t = want.d.t /\ Len(c.d.v) = Len(want.d.v) /\ c.d.v = want.d.v /\ c.m = want.m
 SameCols(cout, want, names) ==
   /\ Len(cout) = Len(want)
-  /\ \A j \in DOMAIN want : LET c == ColOf(cout[j]) IN
-        /\ cout[j].name = names[j] /\ c.d.t = want[j].d.t /\ Len(c.d.v) = Len(want[j].d.v)
-        /\ c.d.v = want[j].d.v /\ c.m = want[j].m
+  /\ \A j \in DOMAIN want : cout[j].name = names[j] /\ SameCol(ColOf(cout[j]), want[j])
+\* the lives of the columns of a file that was built (no string table yet) ...
+Lives1(cin, hist) == [j \in DOMAIN cin |-> Life(ColOf(cin[j]), None, OpsOn(hist, j))]
+\* ... and of a file that was read (every string column carries the table of the file)
+Lives2(L1, hist2) == [j \in DOMAIN L1 |-> Life(L1[j].c, TableOf(L1[j].c), OpsOn(hist2, j))]
+\* writing the whole file is refused when one column is
+FileRefused(L) == \E j \in DOMAIN L : Refuses(L[j].c, L[j].tbl)
+ContentOf(L) == [j \in DOMAIN L |-> L[j].c]
+\* recorded serialisations during a history: outs[n] = [k, oc, A, M] - operation k of hist (a serialize / write of
+\* one column) was read back as column (A, M) or refused; every such operation is recorded, and every one
+\* reflects the content its column had at that moment
+SerialisedAt(hist) == {k \in DOMAIN hist : hist[k][2][1] \in {"serialize", "write"}}
+PosOf(hist, k) == Cardinality({i \in 1..k : hist[i][1] = hist[k][1]})
+OutsOk(outs, hist, L) ==
+  /\ Len(outs) = Cardinality(SerialisedAt(hist))
+  /\ {outs[n].k : n \in DOMAIN outs} = SerialisedAt(hist)
+  /\ \A n \in DOMAIN outs :
+        LET k == outs[n].k
+            want == L[hist[k][1]].outs[PosOf(hist, k)]
+        IN /\ outs[n].oc = want.oc
+           /\ (want.oc = "ok" => SameCol(ColOf(outs[n]), want.c))
 =============================================================================
